@@ -4,7 +4,7 @@
 From Coq Require Import String List NArith Bool Lia.
 From J5V.lib Require Import Outcome Corr.
 From J5V.model Require Import J5sAst Desc J5sWalk J5sLink J5sConvert J5sContract J5sValid.
-From J5V.proofs Require Import J5sProofs J5sContractProofs J5sLinkProofs J5sServiceProofs J5sTotalProofs.
+From J5V.proofs Require Import J5sProofs J5sContractProofs J5sLinkProofs J5sServiceProofs J5sTotalProofs J5sSymbolProofs.
 Import ListNotations.
 Local Open Scope N_scope.
 
@@ -471,7 +471,8 @@ Lemma valid_symbols bd pkg fs :
 Proof.
   unfold valid_bundle. intros H Hin Hfs. apply andb_true_iff in H. destruct H as [H _].
   apply andb_true_iff in H. destruct H as [_ H]. rewrite forallb_forall in H. specialize (H _ Hin).
-  apply andb_true_iff in H. destruct H as [H _]. unfold symbols_ok in H. rewrite Hfs in H. exact H.
+  apply andb_true_iff in H. destruct H as [H _]. unfold symbols_ok in H.
+  rewrite (package_symbols_declared snake camel screaming _ _ _ Hfs). exact H.
 Qed.
 
 Theorem link_closure_total bd :
